@@ -306,6 +306,24 @@ def one_roundtrip(rng, res, d, use_gpg):
             if label not in ("leaf_edit", "falsy_edit") or before_c != after_c or err or "payload" in c:
                 res.fail("oracle", {"op": "load_verify_sig", "desc": dict(desc, variant=label), "content": c, "key": pub, "table": table.rows},
                          {"why": "verification succeeded after '%s'" % label, "impl": i})
+    _surrogate_variant(content, verify_pub, path, rng, res, desc)
+
+
+def _surrogate_variant(content, pub, path, rng, res, desc):
+    """Oracle only (the model's strings cannot hold a lone surrogate): a character of the signed content replaced by the
+    lone surrogates of its UTF-8 bytes is a change of the signed content like any other."""
+    e = scen.surrogate_edit(content, rng)
+    if not e:
+        return
+    p2 = path + ".surrogate"
+    json.dump(e[0], open(p2, "w", encoding="utf8"))
+    i = impl_check(p2, pub)
+    res.evaluations += 1
+    res.count("variant_surrogate_edit")
+    if i.get("load") == "ok" and i["check"] == "ok":
+        res.fail("oracle", {"op": "surrogate_edit", "desc": desc, "edit": e[1]},
+                 {"why": "verification succeeded after a string of the signed content was edited (a character replaced by the lone "
+                         "surrogates of its UTF-8 bytes)", "impl": {k: v for k, v in i.items() if k != "bytes"}})
 
 
 def shard_roundtrip(seed, idx, n, tier):
